@@ -206,7 +206,7 @@ def main(argv=None):
     tl = []
     for c in contracts:
         if c.shards > 1:
-            tl.extend(('contract', c.name, dict(opts, shard=(k, c.shards), budget_s=1500)) for k in range(c.shards))
+            tl.extend(('contract', c.name, dict(opts, shard=(k, c.shards), budget_s=780)) for k in range(c.shards))
         else:
             tl.append(('contract', c.name, opts))
     for (mod, fn, shards) in cfg.get('bounded', []):
@@ -356,6 +356,7 @@ def main(argv=None):
         back_ends={'z3-5.1-python-api': n_dis},
         solver_seconds=round(solver_secs, 2),
         known_finding_obligations=n_known,
+        partially_explored=sorted({f"{r['name']}: {n}" for r in cres for n in r.get('notes', []) if n.startswith('PARTIAL')}),
         undecided=len(unknown),
         inlined_helpers=inlined,
         bounded=dict(label='bounded stand-in, NOT counted as proved', evaluations=b_eval, distinct_nontrivial=b_dist,
